@@ -619,3 +619,8 @@ MANIFEST_ENTRY = dict(
          'exact-tile requests returned unresampled, feature-info point and WMTS feature-info tile rectangle.',
     note='Partial: cross-SRS reprojection and resampling kernels are FFI (outside); PIL window semantics are a stated model; enumerated configurations.',
 )
+
+# --- manifest text refreshed after rounds 6-8 (obligations added since the entry above was written)
+MANIFEST_ENTRY['text'] = MANIFEST_ENTRY['text'] + ' Rescaled tiles (upscale/downscale): the source list handed to the mosaic is aligned with the affected addresses for every tile and every subset of missing source tiles; WMS 1.3.0 axis order of outgoing and incoming BBOX.'
+MANIFEST_ENTRY['note'] = 'Partial: cross-SRS reprojection and resampling kernels are FFI (outside; an axis-aligned affine stub stands for the projection where another SRS is involved); PIL window semantics are a stated model; enumerated configurations.'
+META['assumptions'] = list(META.get('assumptions', [])) + ['rescaled-tile obligations: _load_tile_coords and TiledImage are recording stubs; which source tiles are missing is a symbolic subset of the first 6 slots']
